@@ -100,7 +100,10 @@ func Run(ctx *core.Ctx) {
 	wg.Add(3)
 	go func() { defer wg.Done(); runM1(ctx) }()
 	go func() { defer wg.Done(); runDeviations(ctx) }()
-	go func() { defer wg.Done(); cases, xerr = exportCases(ctx, maxParts, maxInner, append(append([]string{}, locales...), "cs"), ctx.Pick(8, 8)) }()
+	go func() {
+		defer wg.Done()
+		cases, xerr = exportCases(ctx, maxParts, maxInner, append(append([]string{}, locales...), "cs"), ctx.Pick(8, 8))
+	}()
 	wg.Wait()
 	if xerr != nil {
 		ctx.ToolError("export: %v", xerr)
@@ -112,26 +115,48 @@ func Run(ctx *core.Ctx) {
 	RunPipeline(ctx, cases, locales)
 }
 
-func poCfg(maxParts, maxInner int, dev string, invs string) string {
-	return fmt.Sprintf("INIT Init\nNEXT Next\nCONSTANTS\n  MaxParts = %d\n  MaxInner = %d\n  PODev = {%s}\n  Locales = {\"ja\", \"en\", \"ru\", \"cs\"}\nINVARIANTS %s\nCHECK_DEADLOCK FALSE\n",
-		maxParts, maxInner, dev, invs)
+func poCfg(maxParts, maxInner int, dev string, invs string, shard, nshards int) string {
+	return fmt.Sprintf("INIT Init\nNEXT Next\nCONSTANTS\n  MaxParts = %d\n  MaxInner = %d\n  PODev = {%s}\n  Locales = {\"ja\", \"en\", \"ru\", \"cs\"}\n  Shard = %d\n  NShards = %d\nINVARIANTS %s\nCHECK_DEADLOCK FALSE\n",
+		maxParts, maxInner, dev, shard, nshards, invs)
 }
 
-const poInvariants = "RoundTripIdentity RoundTripForms RoundTripReverse HeaderWins ExpectedIsSource AbsentFallsBack ExtractShape"
+const poInvariants = "RoundTripIdentity RoundTripForms RoundTripReverse HeaderWins SeqIsConcat ExpectedIsSource AbsentFallsBack ExtractShape"
 
+// runM1 checks the reference model.  Every state of SoyPOCheck is an initial
+// state (TLC checks those in one thread), so the family is split over several
+// TLC processes.
 func runM1(ctx *core.Ctx) {
-	mp, mi := ctx.Pick(3, 3), ctx.Pick(1, 2)
-	res, err := ctx.RunTLC(core.TLCOpts{Module: "SoyPOCheck", Cfg: poCfg(mp, mi, "", poInvariants), Workers: 6,
-		Timeout: 20 * time.Minute, Label: fmt.Sprintf("M1-reference(MaxParts=%d,MaxInner=%d)", mp, mi)})
-	if err != nil {
-		ctx.ToolError("M1: %v", err)
-		return
+	mp, mi := ctx.Pick(2, 3), ctx.Pick(1, 2)
+	nshards := ctx.Pick(2, 8)
+	var wg sync.WaitGroup
+	var mu sync.Mutex
+	var total int64
+	failed := false
+	for sh := 0; sh < nshards; sh++ {
+		wg.Add(1)
+		go func(sh int) {
+			defer wg.Done()
+			res, err := ctx.RunTLC(core.TLCOpts{Module: "SoyPOCheck", Cfg: poCfg(mp, mi, "", poInvariants, sh, nshards), Workers: 1,
+				Timeout: 20 * time.Minute, Label: fmt.Sprintf("M1-reference(MaxParts=%d,MaxInner=%d)-%d/%d", mp, mi, sh, nshards)})
+			mu.Lock()
+			defer mu.Unlock()
+			if err != nil {
+				ctx.ToolError("M1: %v", err)
+				failed = true
+				return
+			}
+			if res.Violated != "" {
+				ctx.ToolError("M1: the reference model violates %s (spec bug): %s", res.Violated, res.Stdout[max(0, len(res.Stdout)-600):])
+				failed = true
+				return
+			}
+			total += res.Distinct
+		}(sh)
 	}
-	if res.Violated != "" {
-		ctx.ToolError("M1: the reference model violates %s (spec bug): %s", res.Violated, res.Trace)
-		return
+	wg.Wait()
+	if !failed {
+		ctx.Extra["m1_reference"] = fmt.Sprintf("no violation; %d distinct states", total)
 	}
-	ctx.Extra["m1_reference"] = fmt.Sprintf("no violation; %d distinct states", res.Distinct)
 }
 
 func runDeviations(ctx *core.Ctx) {
@@ -142,27 +167,41 @@ func runDeviations(ctx *core.Ctx) {
 		{"same_by_flat_text", "RoundTripIdentity"},
 		{"same_ignores_directives", "RoundTripIdentity"},
 		{"builtin_rule_wins", "HeaderWins"},
+		{"lookup_cache_by_name", "SeqIsConcat"},
 	}
 	self := map[string]interface{}{}
+	var wg sync.WaitGroup
+	var mu sync.Mutex
+	sem := make(chan struct{}, 3)
 	for _, d := range devs {
-		res, err := ctx.RunTLC(core.TLCOpts{Module: "SoyPOCheck", Cfg: poCfg(2, 1, `"`+d.name+`"`, "RoundTripIdentity RoundTripReverse HeaderWins"),
-			Workers: 1, Timeout: 10 * time.Minute, Label: "M1-deviation-" + d.name})
-		if err != nil {
-			ctx.ToolError("deviation %s: %v", d.name, err)
-			return
-		}
-		if res.Violated != d.inv {
-			ctx.ToolError("deviation %s: expected TLC to violate %s, got %q (vacuous invariant?)", d.name, d.inv, res.Violated)
-			return
-		}
-		cex := ""
-		for _, ln := range strings.Split(res.Stdout, "\n") {
-			if strings.Contains(ln, "pcase =") {
-				cex = strings.TrimSpace(ln)
+		d := d
+		wg.Add(1)
+		go func() {
+			defer wg.Done()
+			sem <- struct{}{}
+			defer func() { <-sem }()
+			res, err := ctx.RunTLC(core.TLCOpts{Module: "SoyPOCheck", Cfg: poCfg(2, 1, `"`+d.name+`"`, d.inv, 0, 1),
+				Workers: 1, Timeout: 10 * time.Minute, Label: "M1-deviation-" + d.name})
+			mu.Lock()
+			defer mu.Unlock()
+			if err != nil {
+				ctx.ToolError("deviation %s: %v", d.name, err)
+				return
 			}
-		}
-		self[d.name] = map[string]interface{}{"violates": res.Violated, "counterexample": cex}
+			if res.Violated != d.inv {
+				ctx.ToolError("deviation %s: expected TLC to violate %s, got %q (vacuous invariant?)", d.name, d.inv, res.Violated)
+				return
+			}
+			cex := ""
+			for _, ln := range strings.Split(res.Stdout, "\n") {
+				if strings.Contains(ln, "pcase =") {
+					cex = strings.TrimSpace(ln)
+				}
+			}
+			self[d.name] = map[string]interface{}{"violates": res.Violated, "counterexample": cex}
+		}()
 	}
+	wg.Wait()
 	ctx.Extra["deviation_selftest"] = self
 }
 
